@@ -271,6 +271,7 @@ void Server::Private::run()
       else
         deleteClient(client);
     }
+    timeout = _queuedTimers.begin().key() - now; // onClosed may have created a timer
 
     if (!_sockets.poll(pollEvent, timeout))
       break;
